@@ -236,6 +236,22 @@ def check_source(
             forget_module(mod)
 
 
+def make_named_module(src, name):
+    """Like analysis_lib.make_module but with a chosen module name (for per-module overrides)."""
+    import types
+
+    filename = f"{name}.py"
+    mod = types.ModuleType(name)
+    scope = mod.__dict__
+    scope["__name__"] = name
+    scope["__file__"] = filename
+    scope["__loader__"] = analysis_lib._FakeLoader(src)
+    linecache.lazycache(filename, scope)
+    exec(compile(src, filename, "exec"), scope)
+    sys.modules[name] = mod
+    return mod
+
+
 def union_of(values):
     from pyanalyze.value import unite_values
 
